@@ -728,7 +728,14 @@ class _Collect:
 def _work(job):
     spec, ww, o2 = job
     c = _Collect()
-    rq, rl, info = check_case(c, spec, want_writer=ww, o2=o2)
+    try:
+        rq, rl, info = check_case(c, spec, want_writer=ww, o2=o2)
+    except Exception as e:      # the real pass left a graph this harness cannot even walk (never seen on a tree where C25 holds)
+        c.fail({"spec": spec, "stage": "inspect"}, "short_circuit_struct / the writer on this condition graph ended in an exception while the "
+               "merged graph was being inspected (a node the harness looks up is missing or unexpected): the merged "
+               "graph does not route control like the original one", None, "a merged graph with every original exit",
+               "%s: %s" % (type(e).__name__, str(e)[:120]))
+        return [], [], {"merges": 0, "prints": 0, "swapped": 0, "sc_prints": 0, "exc": "inspect", "o2": 0}, c.failures
     info.pop("o2_text", None)
     return rq, rl, info, c.failures
 
@@ -914,7 +921,11 @@ def replay(ck: Check, rp):
         for pr in r.get("prints", []):
             print("printed", pr["rep"], repr(pr["text"]), "true/false =", pr["tf"])
         ck2 = Check(ck.prop, "quick", ck.seed)
-        check_case(ck2, spec)
+        try:
+            check_case(ck2, spec)
+        except Exception as e:
+            print("FAIL: inspecting the merged graph raised", type(e).__name__, str(e)[:200])
+            return 1
         for f in ck2.failures[:3]:
             print("FAIL:", f["what"], "expected", f["expected"], "observed", f["observed"])
         return 1 if ck2.failures else 0
